@@ -1,5 +1,6 @@
 import N2V.Model.Basic
 import N2V.Model.Canon
+import N2V.Model.Depfile
 open N2V
 
 def showRes (r : Res Bytes) : String :=
@@ -15,6 +16,63 @@ def b01 (b : Bool) : String := if b then "1" else "0"
 
 def mons (l : List (String × Bool)) : String :=
   " ## " ++ " ".intercalate (l.map (fun p => p.1 ++ "=" ++ b01 p.2))
+
+def showBad (r : Res Unit) : String :=
+  match r with
+  | .ok _ => "ok?"
+  | .err m => "err " ++ m
+  | .panic s => "panic " ++ s
+  | .oob => "oob"
+  | .overflow => "overflow"
+  | .fuel => "fuel"
+
+def showEntries (es : Depfile.Entries) : String :=
+  "ok " ++ toString es.length ++ String.join (es.map (fun e =>
+    " " ++ hexOfBytes e.1 ++ " " ++ toString e.2.length ++ String.join (e.2.map (fun d => " " ++ hexOfBytes d))))
+
+def showDepfile (r : Scanner.PRes Depfile.Entries) : String :=
+  match r with
+  | .ok es _ => showEntries es
+  | .perr m o => "err " ++ toString o ++ " " ++ hexOfBytes (bytesOfString m)
+  | .bad r => showBad r
+
+/-- Parse `n (t k d*)*` token lists (the harness's rendering of entries). -/
+def parseEntryToks : Nat → List String → Option (Depfile.Entries × List String)
+  | 0, toks => some ([], toks)
+  | n + 1, t :: k :: rest => do
+    let tb ← bytesOfHex t
+    let kn ← k.toNat?
+    if rest.length < kn then none else
+    let ds ← (rest.take kn).mapM bytesOfHex
+    let (es, r) ← parseEntryToks n (rest.drop kn)
+    pure ((tb, ds) :: es, r)
+  | _, _ => none
+
+def parseEntries (toks : List String) : Option Depfile.Entries :=
+  match toks with
+  | n :: rest => do
+    let k ← n.toNat?
+    let (es, r) ← parseEntryToks k rest
+    if r.isEmpty then some es else none
+  | [] => none
+
+def allDistinct : List Bytes → Bool
+  | [] => true
+  | x :: xs => !xs.contains x && allDistinct xs
+
+/-- C15 monitor on the implementation's observation for a structured depfile: nothing lost,
+    nothing invented, and (targets pairwise distinct) exactly the listed order. -/
+def depfileMon (expected : Depfile.Entries) (impl : List String) : List (String × Bool) :=
+  match impl with
+  | "ok" :: rest =>
+    match parseEntries rest with
+    | some got =>
+      let want := Depfile.flatten expected
+      let have_ := Depfile.flatten got
+      [("allListed", want.all (have_.contains ·) && have_.all (want.contains ·) && want.length == have_.length),
+       ("inOrder", !allDistinct (expected.map (·.1)) || have_ == want)]
+    | none => [("parseImpl", false)]
+  | _ => [("structuredAccepted", false)]
 
 /-- `case` tokens and the implementation's observed tokens -> model line ++ monitor verdicts. -/
 def handle (case impl : List String) : String :=
@@ -43,6 +101,17 @@ def handle (case impl : List String) : String :=
           [("noPanicWithinCap", decide (s = [] ∨ Canon.numComps s false > Canon.CAP))]
         | _ => [("noAbort", false)]
       line ++ mons (("specAgrees", specOk) :: m)
+  | ["depfile", h] =>
+    match bytesOfHex h with
+    | none => "bad-hex"
+    | some t =>
+      let noCrash := match impl with | "ok" :: _ => true | "err" :: _ => true | _ => false
+      showDepfile (Depfile.parse t) ++ mons [("okOrDiagnostic", noCrash)]
+  | "depfileS" :: h :: rest =>
+    match bytesOfHex h, parseEntries rest with
+    | some t, some expected =>
+      showDepfile (Depfile.parse t) ++ mons (depfileMon expected impl)
+    | _, _ => "bad-case"
   | _ => "bad-op"
 
 partial def loop (h : IO.FS.Stream) (out : IO.FS.Stream) : IO Unit := do
